@@ -72,6 +72,8 @@ def gen_program(rng, depth, children_pool):
                         group[-1]['n'] = rng.randint(1, 2)
                 elif roll < 0.32 and step.get('async') and depth == 0:
                     group.append({'e': 'adopt'})
+                elif roll < 0.36 and depth == 0:
+                    group.append({'e': 'execute_clone'})
     return program
 
 
